@@ -237,6 +237,10 @@ func genAuthnLine(r *wire.Rng) []string {
 
 var (
 	tlsPools = [][]string{{"td1=R1", "td2=R2"}, {"td1=R1"}, {"td1=R1+R2"}, {"td1=R1", "td1=R3", "td2=R2"}, {"td2=R2", "cluster.local=R1+R3"}, {}}
+	// federated trust domains: what their SPIFFE bundle endpoint serves (x509-svid / jwt-svid / use-less entries;
+	// entries with two certificates or none; RX is a CA that is a root of no trust domain)
+	tlsBundles = []string{"@x:R1", "@x:R1;j:RX", "@j:RX;x:R1", "@x:R1;x:R2", "@j:RX", "@x:R1+RX", "@x:R1;x:", "@x:R1;j:", "@x:R1;j:R2+RX", "@n:RX;x:R1", "@x:RX",
+		"@", "@j:R1", "@x:R1;j:RX;j:R3", "@n:R1", "@x:;j:RX", "@x:R2;j:R1"}
 	tlsURIs  = []string{"spiffe://td1/ns/a/sa/b", "spiffe://td2/ns/a/sa/b", "spiffe://td1/ns/istio-system/sa/ztunnel", "spiffe://cluster.local/ns/a/sa/b",
 		"spiffe://td3/ns/a/sa/b", "spiffe://td1/x", "spiffe://td1/ns/a/sa/b/c", "https://td1/ns/a/sa/b", "spiffe://td1,td2/ns/a/sa/b",
 		"SPIFFE://td1/ns/a/sa/b", "Spiffe://td2/ns/a/sa/b", "sPiFfE://td1/ns/istio-system/sa/ztunnel", "SPIFFE://td3/ns/a/sa/b", "SPIFFE://td1/x"}
@@ -245,6 +249,28 @@ var (
 // genTLSCert: a client certificate presented in a real TLS handshake (kind 4).
 func genTLSCert(r *wire.Rng, tr string) []string {
 	pools := wire.Pick(r, tlsPools)
+	if r.Chance(1, 4) {
+		// td1 (sometimes td2) is a federated trust domain
+		pools = []string{"td1=" + wire.Pick(r, tlsBundles)}
+		switch r.Intn(4) {
+		case 0:
+			pools = append(pools, "td2=R2")
+		case 1:
+			pools = append([]string{"td2=" + wire.Pick(r, tlsBundles)}, pools...)
+		case 2:
+			pools = append(pools, "td1=R3")
+		}
+		if r.Chance(3, 4) {
+			// a client whose certificate comes from one of the CAs the bundle mentions - in whatever role
+			var names []string
+			for _, k := range parseBundleKeys(strings.TrimPrefix(strings.SplitN(pools[len(pools)-1], "=", 2)[1], "@")) {
+				names = append(names, k.certs...)
+			}
+			names = append(names, "RX", "R1")
+			l := leafSpec{issuer: wire.Pick(r, names), when: "ok", eku: "both", sans: []string{"U:spiffe://" + wire.Pick(r, []string{"td1", "td1", "td2"}) + "/ns/a/sa/b"}}
+			return []string{"tlscert", tr, wire.EncList(pools), l.tok(), "-"}
+		}
+	}
 	if r.Chance(1, 12) {
 		return []string{"tlscert", tr, wire.EncList(pools), "nocert", "-"}
 	}
@@ -265,7 +291,7 @@ func genTLSCert(r *wire.Rng, tr string) []string {
 	for i := 0; i < nuri; i++ {
 		l.sans = append(l.sans, "U:"+wire.Pick(r, tlsURIs))
 	}
-	if len(pools) > 0 && nuri >= 1 && r.Chance(2, 3) {
+	if len(pools) > 0 && nuri >= 1 && !strings.Contains(strings.Join(pools, ","), "@") && r.Chance(2, 3) {
 		// mostly a certificate that is in order: a trust domain that has a pool, issued under one of its roots
 		td, roots, _ := strings.Cut(wire.Pick(r, pools), "=")
 		root := wire.Pick(r, strings.Split(roots, "+"))
@@ -323,6 +349,12 @@ func genAuthn(seed uint64, n int, outp string) {
 		out.Line("case", strconv.Itoa(c), "authn")
 		k := 1 + r.Intn(3)
 		for i := 0; i < k; i++ {
+			if r.Chance(1, 8) {
+				// the mesh config's trust domain changes: authenticators constructed under the old one must follow
+				out.Line("mesh", wire.Enc(wire.Pick(r, []string{"new.td", "cluster.local", "td@corp.example", ""})))
+				out.Line(append([]string{"authn"}, genAuthSpec(r, r.Intn(2), genTransport(r), false)...)...)
+				continue
+			}
 			out.Line(genAuthnLine(r)...)
 		}
 	}
@@ -358,8 +390,15 @@ func tokenPresented(tr, form string) bool {
 // credentialClause evaluates the property on one authenticator spec (kind first, as in an `authn` line
 // without the leading word) and the caller the real authenticator returned for it; "" = holds.
 // `via` is the record of the TokenReview the kube authenticator submitted.
-func credentialClause(f []string, caller *security.Caller, via string) string {
+func credentialClause(f []string, caller *security.Caller, via string, mesh *string) string {
 	ids := caller.Identities
+	// the trust domain of an issued identity is the mesh's AT THE TIME OF THE REQUEST
+	tdNow := func(constructed string) string {
+		if mesh != nil {
+			return *mesh
+		}
+		return constructed
+	}
 	switch f[0] {
 	case "oidc":
 		sub := wire.Dec(f[6])
@@ -377,7 +416,7 @@ func credentialClause(f []string, caller *security.Caller, via string) string {
 			return "oidc-unvalidated-credential"
 		} else if len(parts) < 4 || !strings.HasPrefix(sub, "system:serviceaccount") || parts[2] == "" || parts[3] == "" {
 			return "oidc-malformed-sub-accepted"
-		} else if len(ids) != 1 || ids[0] != "spiffe://"+sanitizeTD(wire.Dec(f[2]))+"/ns/"+parts[2]+"/sa/"+parts[3] {
+		} else if len(ids) != 1 || ids[0] != "spiffe://"+sanitizeTD(tdNow(wire.Dec(f[2])))+"/ns/"+parts[2]+"/sa/"+parts[3] {
 			return "oidc-identity-not-from-sub"
 		}
 	case "kube":
@@ -393,7 +432,7 @@ func credentialClause(f []string, caller *security.Caller, via string) string {
 			return "kube-unvalidated-credential"
 		} else if len(parts) != 4 || parts[2] == "" || parts[3] == "" {
 			return "kube-malformed-username-accepted"
-		} else if len(ids) != 1 || ids[0] != "spiffe://"+sanitizeTD(wire.Dec(f[2]))+"/ns/"+parts[2]+"/sa/"+parts[3] ||
+		} else if len(ids) != 1 || ids[0] != "spiffe://"+sanitizeTD(tdNow(wire.Dec(f[2])))+"/ns/"+parts[2]+"/sa/"+parts[3] ||
 			caller.KubernetesInfo.PodNamespace != parts[2] || caller.KubernetesInfo.PodServiceAccount != parts[3] {
 			return "kube-identity-not-from-review"
 		}
@@ -451,7 +490,7 @@ func credentialClause(f []string, caller *security.Caller, via string) string {
 			return "xfcc-no-header"
 		}
 		// exactly the URI, DNS and Subject-CN values of the first header value, element by element
-		want, ok := expectedFromCredential(f, "-")
+		want, ok := expectedFromCredential(f, "-", mesh)
 		if !ok && len(want.ids) == 0 && len(ids) == 0 {
 			break // a header without any name: a caller without identities, which the authentication manager discards
 		}
@@ -491,55 +530,127 @@ func credentialClause(f []string, caller *security.Caller, via string) string {
 	return ""
 }
 
+// authnJudge executes the ops of stream `authn` once: output line for the model comparison, and the property
+// (credentialClause) on the raw result.
+type authnJudge struct {
+	s       *authnSUT
+	verdict string
+	open    bool
+	idx     int
+	out     *wire.Out
+	stats   map[string]int
+}
+
+func newAuthnJudge(verdicts *wire.Out) *authnJudge {
+	return &authnJudge{s: newAuthnSUT(), out: verdicts, stats: map[string]int{}}
+}
+
+func (j *authnJudge) flush() {
+	if j.open && j.out != nil {
+		v := j.verdict
+		if v == "" {
+			v = "OK"
+		}
+		j.out.Line(v)
+		j.out.Flush()
+	}
+	j.open = false
+}
+
+func (j *authnJudge) finish() {
+	j.flush()
+	if j.out != nil {
+		j.out.Line(statsLine(j.stats)...)
+		j.out.Flush()
+	}
+}
+
+func (j *authnJudge) step(f []string) string {
+	if f[0] == "case" {
+		j.flush()
+		j.verdict, j.open, j.idx = "", true, 0
+		return j.s.apply(f)
+	}
+	j.idx++
+	if f[0] != "authn" || len(f) < 3 {
+		return j.s.apply(f)
+	}
+	fail := func(clause string, got string) {
+		if j.verdict == "" {
+			j.verdict = "FAIL " + clause + " op=" + strconv.Itoa(j.idx) + " " + wire.Enc(strings.Join(f, " ")+" => "+got)
+		}
+	}
+	res := j.s.run(f)
+	got := res.format()
+	if res.fixErr != nil {
+		return got
+	}
+	j.stats["evaluated.errors-not-crashes."+f[1]]++
+	if res.crash {
+		if f[1] == "xfcc" && !peerIsNetworkAddress(f[4]) {
+			return got // not a transport address: outside the property's quantifier (recorded observation)
+		}
+		fail(f[1]+"-errors-not-crashes", got)
+		return got
+	}
+	if f[1] == "tlscert" && strings.Contains(f[3], "@") {
+		// a federated trust domain: bundles the property refuses must be refused, the others accepted
+		_, _, bundlesOK := registeredRoots(wire.DecList(f[3]), "")
+		j.stats["evaluated.spiffe-bundle-clause"]++
+		if bundlesOK && res.bundleErr {
+			fail("tlscert-wellformed-bundle-refused", got)
+		} else if !bundlesOK && !res.bundleErr {
+			fail("tlscert-malformed-bundle-accepted", got)
+		}
+	}
+	if res.err != nil || res.caller == nil || res.rejected {
+		return got
+	}
+	j.stats["evaluated.credential-clause."+f[1]]++
+	if j.s.mesh != nil && (f[1] == "oidc" || f[1] == "kube") {
+		j.stats["evaluated.trust-domain-after-mesh-change."+f[1]]++
+	}
+	if clause := credentialClause(f[1:], res.caller, res.via, j.s.mesh); clause != "" {
+		fail(clause, got)
+	}
+	return got
+}
+
 func oracleAuthn(in, outp string) {
 	out := wire.Create(outp)
 	defer out.Close()
-	s := newAuthnSUT()
-	verdict, open, idx := "", false, 0
-	flush := func() {
-		if open {
-			if verdict == "" {
-				verdict = "OK"
-			}
-			out.Line(verdict)
-			out.Flush()
-		}
-	}
-	fail := func(clause string, f []string, got string) {
-		if verdict == "" {
-			verdict = "FAIL " + clause + " op=" + strconv.Itoa(idx) + " " + wire.Enc(strings.Join(f, " ")+" => "+got)
-		}
-	}
+	j := newAuthnJudge(out)
 	for _, f := range wire.ReadLines(in) {
-		if f[0] == "case" {
-			flush()
-			verdict, open, idx = "", true, 0
-			continue
-		}
-		idx++
-		if f[0] != "authn" || len(f) < 3 {
-			continue
-		}
-		res := s.run(f)
-		got := res.format()
-		if res.fixErr != nil {
-			continue
-		}
-		if res.crash {
-			if f[1] == "xfcc" && !peerIsNetworkAddress(f[4]) {
-				continue // not a transport address: outside the property's quantifier (recorded observation)
+		j.step(f)
+	}
+	j.finish()
+}
+
+// registeredRoots: the roots registered for trust domain `td` by the pools of a tlscert spec - the listed roots of
+// a plain pool, and for a federated pool what its SPIFFE bundle contributes (bundleRoots).  ok=false: some bundle
+// is refused (istiod does not come up).
+func registeredRoots(pools []string, td string) (roots map[string]bool, has, ok bool) {
+	roots = map[string]bool{}
+	ok = true
+	for _, p := range pools {
+		t, rs, _ := strings.Cut(p, "=")
+		var names []string
+		if keys, fed := strings.CutPrefix(rs, "@"); fed {
+			var good bool
+			if names, good = bundleRoots(parseBundleKeys(keys)); !good {
+				ok = false
 			}
-			fail(f[1]+"-errors-not-crashes", f, got)
-			continue
+		} else {
+			names = strings.Split(rs, "+")
 		}
-		if res.err != nil || res.caller == nil {
-			continue
-		}
-		if clause := credentialClause(f[1:], res.caller, res.via); clause != "" {
-			fail(clause, f, got)
+		if t == td {
+			has = true
+			for _, r := range names {
+				roots[r] = true
+			}
 		}
 	}
-	flush()
+	return roots, has, ok
 }
 
 // tlsCertExpected states, on the spec alone, when a client certificate counts as validated: it is within
@@ -575,13 +686,9 @@ func tlsCertExpected(f []string) ([]string, bool) {
 	if !ok {
 		return nil, false
 	}
-	roots := map[string]bool{}
-	for _, p := range wire.DecList(f[2]) {
-		if t, rs, _ := strings.Cut(p, "="); t == td {
-			for _, r := range strings.Split(rs, "+") {
-				roots[r] = true
-			}
-		}
+	roots, _, bundlesOK := registeredRoots(wire.DecList(f[2]), td)
+	if !bundlesOK {
+		return nil, false
 	}
 	presented := map[string]bool{}
 	for _, i := range wire.DecList(f[4]) {
